@@ -440,6 +440,8 @@ func declaredInputsRule(c *Ctx, r *Report, rule string, pick func(ai accessorInp
 		}
 		if equalStrs(ai.atoms, sp.Atoms) {
 			r.ok(rule, name, c.fnPos(ai.fn), "reads exactly the declared inputs "+strings.Join(sp.Atoms, ", "))
+		} else if eq, ok := equivalentInputs[name]; ok && equalStrs(normAtoms(ai.atoms, eq), normAtoms(sp.Atoms, eq)) {
+			r.ok(rule, name, c.fnPos(ai.fn), fmt.Sprintf("reads %v, the declared inputs are %v: the same up to inputs that stand in for one another (%v), which the decision table R13.5 varies together", ai.atoms, sp.Atoms, eq))
 		} else if by, ok := decidedByTable[name]; ok {
 			r.ok(rule, name, c.fnPos(ai.fn), fmt.Sprintf("reads %v, the declared inputs are %v; the accessor is decided as a complete decision table by %s whatever it reads (the table states the value for every combination of the defining inputs)", ai.atoms, sp.Atoms, by))
 		} else if why, ok := toleratedByParts(c, spec, ai, sp.Atoms); ok {
@@ -490,6 +492,11 @@ func toleratedByParts(c *Ctx, spec map[string]inputSpec, ai accessorInputs, decl
 	for _, other := range c.accessorInputs() {
 		on := fname(other.fn)
 		by, decided := decidedByTable[on]
+		if eq, ok := equivalentInputs[on]; ok && !decided {
+			if osp, listed := spec[on]; listed && equalStrs(normAtoms(other.atoms, eq), normAtoms(osp.Atoms, eq)) {
+				by, decided = "R13.5", true
+			}
+		}
 		if _, called := calls[on]; !decided || !called || other.sect != nil {
 			continue
 		}
@@ -524,4 +531,16 @@ func toleratedByParts(c *Ctx, spec map[string]inputSpec, ai accessorInputs, decl
 	}
 	sort.Strings(parts)
 	return strings.Join(parts, ", "), true
+}
+
+// normAtoms: the atoms with each input replaced by the one it stands in for, sorted and without repeats.
+func normAtoms(atoms []string, eq map[string]string) []string {
+	set := map[string]bool{}
+	for _, a := range atoms {
+		if b, ok := eq[a]; ok {
+			a = b
+		}
+		set[a] = true
+	}
+	return sortedKeys(set)
 }
